@@ -107,6 +107,32 @@ func solveAll(obls []*Obligation, cfg solveCfg) {
 }
 
 func solveOne(o *Obligation, cfg solveCfg) {
+	// conjunctive goals are discharged conjunct by conjunct (earlier conjuncts become hypotheses)
+	if !o.ExpectSat && o.Goal.Op == "and" && len(o.Goal.Args) > 1 {
+		var names []string
+		var total int64
+		hyps := append([]*Term(nil), o.Hyps...)
+		for i, g := range o.Goal.Args {
+			sub := &Obligation{Name: o.Name, Key: o.Key, Fn: o.Fn, Kind: o.Kind, Hyps: hyps, Goal: g, Pos: o.Pos, Clause: o.Clause, Descr: fmt.Sprintf("%s [conjunct %d/%d]", o.Descr, i+1, len(o.Goal.Args))}
+			sub.SMT = strings.TrimSuffix(o.SMT, ".smt2") + fmt.Sprintf(".c%d.smt2", i+1)
+			if g.IsTrue() {
+				continue
+			}
+			solveOne(sub, cfg)
+			total += sub.Ms
+			if sub.Status != "proved" {
+				o.Status, o.Solver, o.Model, o.Output, o.Ms = sub.Status, sub.Solver, sub.Model, fmt.Sprintf("conjunct %d/%d: %s\n%s", i+1, len(o.Goal.Args), g.String(), sub.Output), total
+				o.SMT = sub.SMT
+				return
+			}
+			os.Remove(sub.SMT)
+			names = append(names, sub.Solver)
+			hyps = append(hyps, g)
+		}
+		o.Status, o.Ms = "proved", total
+		o.Solver = uniqJoin(names)
+		return
+	}
 	hyps := o.Hyps
 	if !o.ExpectSat {
 		hyps = append(append([]*Term(nil), lemmasFor(cfg.lemmas, o)...), hyps...)
@@ -209,4 +235,18 @@ func firstLines(s string, n int) string {
 		ls = ls[:n]
 	}
 	return strings.Join(ls, " | ")
+}
+
+func uniqJoin(xs []string) string {
+	seen := map[string]bool{}
+	var out []string
+	for _, x := range xs {
+		for _, y := range strings.Split(x, "+") {
+			if !seen[y] {
+				seen[y] = true
+				out = append(out, y)
+			}
+		}
+	}
+	return strings.Join(out, "+")
 }
